@@ -174,9 +174,12 @@ class AStarSearch(Plans):
             if s in visited:
                 assert s not in best_in_queue_by_state, 'Previously visited node should not be best node.'
                 continue
-            else:
+            elif best_in_queue_by_state[s] is not node:
+                # A better node for this state is still queued; this happens when heuristic costs tie
+                # (e.g., both infinite) and the tie-break pops the worse node first. Skip the stale node.
                 # We use `is` instead of `==` to ensure the nodes are the same object instances, not just equal.
-                assert best_in_queue_by_state[s] is node, 'Newly visited state should be stored as best node.'
+                continue
+            else:
                 # Remove the reference to this node, now that it's been removed from the queue.
                 del best_in_queue_by_state[s]
 
